@@ -83,7 +83,12 @@ func (c *C13Case) build() (*routers.Route, func() *http.Request) {
 		}
 	}
 	if c.BodySchema != nil {
-		op.RequestBody = &openapi3.RequestBodyRef{Value: openapi3.NewRequestBody().WithContent(openapi3.Content{"application/json": openapi3.NewMediaType().WithSchema(c.BodySchema.ToOpenAPI())})}
+		// the body is declared under the media type the request names (without its parameters)
+		declared := "application/json"
+		if mt := strings.TrimSpace(strings.SplitN(c.CT, ";", 2)[0]); mt != "" {
+			declared = mt
+		}
+		op.RequestBody = &openapi3.RequestBodyRef{Value: openapi3.NewRequestBody().WithContent(openapi3.Content{declared: openapi3.NewMediaType().WithSchema(c.BodySchema.ToOpenAPI())})}
 	}
 	item := &openapi3.PathItem{Post: op, Parameters: itemParams}
 	doc.Paths.Set("/d", item)
@@ -192,6 +197,10 @@ func runC13(c *C13Case) C13Obs {
 	o.Valid = err == nil
 	if err != nil {
 		catchPanic(func() { o.Err = err.Error() })
+	}
+	if strings.Contains(o.Err, "rewriting failed") {
+		// a body that was decoded, validated and given its defaults is refused because it cannot be written back
+		o.Violations = append(o.Violations, "valid-body-refused-when-a-default-is-set:"+strings.TrimSpace(strings.SplitN(c.CT, ";", 2)[0]))
 	}
 	var readable bool
 	o.QueryAfter, o.HeaderAfter, o.CookieAfter, o.BodyAfter, readable = snapshot(req)
@@ -638,7 +647,7 @@ func c13Random(r *Rng) C13Case {
 			}
 		}
 		if r.Chance(12) {
-			c.CT = "application/problem+json"
+			c.CT = Pick(r, []string{"application/problem+json", "application/problem+json", "application/hal+json", "application/vnd.api+json", "application/ld+json", "application/json-patch+json"})
 		} else if r.Chance(20) {
 			// the declared media type, spelled with parameters
 			c.CT = Pick(r, []string{"application/json; charset=utf-8", "application/json;charset=UTF-8", "application/json; profile=x; charset=utf-8"})
